@@ -9,7 +9,7 @@ func init() {
 			"delegating records the lock↔intermediary connection and a bonded synthetic lock before staking, undelegating removes both before unstaking; every flow validates lock ownership (and single-coin locks) first; a lock can be force-unlocked through superfluid only when its synthetic lock is already unlocking; the refresh adjusts stake by the difference in the direction of the comparison.",
 		NotCovered:  []string{"stake = risk-adjusted value to within one unit per lock", "supply neutrality as a number", "drift over epochs"},
 		Assumptions: []string{"staking keeper Delegate / InstantUndelegate semantics", "cache-context helper (C17)"},
-		MinObl:      30,
+		MinObl:      77,
 		Run:         runC11,
 	})
 }
